@@ -363,7 +363,8 @@ var optionSets = []lintOpts{
 	{allowSame: true, allowEmptyResp: true},
 	{allowSame: true, allowEmptyReq: true, svcSuffix: "Handler"},
 	{allowEmptyReq: true, allowEmptyResp: true},
-	{},
+	// the DEFAULT suffixes spelled out in the configuration: same meaning as leaving them unset
+	{zeroSuffix: "_UNSPECIFIED", svcSuffix: "Service"},
 }
 
 func sectionB(run *hx.Run, r *hx.Rand) {
